@@ -95,8 +95,8 @@ fn get_server_values_impl(socket: &mut UdpSocket) -> GDResult<HashMap<String, St
     Ok(server_values)
 }
 
-fn extract_players(server_vars: &mut HashMap<String, String>, players_maximum: u32) -> GDResult<Vec<Player>> {
-    let mut players_data: Vec<HashMap<String, String>> = Vec::with_capacity(players_maximum as usize);
+fn extract_players(server_vars: &mut HashMap<String, String>) -> GDResult<Vec<Player>> {
+    let mut players_data: Vec<HashMap<String, String>> = Vec::new();
 
     server_vars.retain(|key, value| {
         let split: Vec<&str> = key.split('_').collect();
@@ -207,7 +207,7 @@ pub fn query(address: &SocketAddr, timeout_settings: Option<TimeoutSettings>) ->
         Some(v) => Some(v.parse::<u8>().map_err(|e| TypeParse.context(e))?),
     };
 
-    let players = extract_players(&mut server_vars, players_maximum)?;
+    let players = extract_players(&mut server_vars)?;
 
     Ok(Response {
         name: server_vars
